@@ -110,6 +110,8 @@ def plan(tier, seed):
     units.append({'special': 'wide', 'tier': tier})
     units.append({'special': 'two-checkers', 'tier': tier})
     units.append({'special': 'builtins', 'tier': tier})
+    nf = sum(1 for _ in lvsgen.families())
+    units += [{'special': 'families', 'lo': lo, 'hi': min(nf, lo + 60), 'tier': tier} for lo in range(0, nf, 60)]
     return {
         'units': units,
         'rule': 'program = schema of the bounded grammar (complete enumeration); for each, every name of length 0..Lmax+1 (at most 5) over '
@@ -251,6 +253,20 @@ def unit_special(arg):
         for sig, what in viol:
             acc.violation(sig, what, {'special': 'builtins', 'schema': None})
         acc.sample({'special': 'builtins', 'component_types': [8, 32, 252, 253, 300, 301, 65535]})
+        return acc
+    if arg['special'] == 'families':
+        for schema in itertools.islice(lvsgen.families(), arg['lo'], arg['hi']):
+            key, viol = check_schema(schema, acc)
+            acc.evaluations += 1
+            acc.state_count += 1
+            acc.nontrivial += 1
+            if key.startswith('no-claim'):
+                acc.no_claim += 1
+            acc.outcome(f'families|{key}')
+            acc.observe([lvs_ref.render(schema), key, [v[0] for v in viol]])
+            for sig, what in viol:
+                acc.violation(sig, what, {'schema': schema})
+        acc.sample({'special': 'families', 'last_schema': lvs_ref.render(schema)})
         return acc
     gen = wide_schemas() if arg['special'] == 'wide' else fn_schemas()
     fn = check_wide if arg['special'] == 'wide' else check_two_checkers
